@@ -69,6 +69,7 @@ def baseline(path, uids):
 def flatten(tree, parent=None, out=None, anc=()):
     out = {} if out is None else out
     rec = {k: tree[k] for k in ("kind", "cls", "typ", "name", "ad", "attrs", "dsets", "pgs")}
+    rec["typ_real"] = tree.get("typ_real", tree["typ"])      # comments / visual parameters are compared with typ 0
     rec["parent"] = parent
     rec["anc"] = anc
     out[tree["uid"]] = rec
@@ -146,7 +147,7 @@ def judge(ctx, case, base, fault, dst, uids, model_jobs):
     elif described == "ROOT":
         desc = {root_uid}
     elif isinstance(described, tuple):
-        desc = {u for u, r in flat.items() if r["typ"] == described[1]}
+        desc = {u for u, r in flat.items() if r["typ_real"] == described[1]}
     else:
         desc = set(described)
     desc_down = {u for u, r in flat.items() if u in desc or set(r["anc"]) & desc}
